@@ -2506,6 +2506,24 @@ theorem wrap_marked (T : PrecTable) (linelen maxlines : Nat) (lb : Bool) (e : Ex
           simp
     · simp at h
 
+/-- **what is NOT claimed: a line budget.**  `_OperatorDelimiter.__exit__` restores `charpos` and
+`lineno` to their values at the opening parenthesis (then adds 2 for the parentheses), so after a
+parenthesised sub-expression the colourizer under-counts.  A line can be longer than `linelen`
+(`(111+222)*333` at line length 7 is ONE line of 13 characters) and a complete result can have more
+lines than `maxlines` (three lines at `maxlines = 2`).  `wrap_marked`, `exec_spec`,
+`cut_shows_written` assume nothing about line lengths or line counts: they say that every break the
+colourizer does introduce is marked and that nothing is lost or silently cut. -/
+theorem line_budget_counterexample :
+    (match colorize LT (Cfg.make 7 0 true)
+        (.binary .mult (.binary .add (.constInt 111) (.constInt 222)) (.constInt 333)) with
+      | .ok r => (r.isComplete, r.items.flatMap Item.raw)
+      | .error _ => (false, [])) = (true, "(111+222)*333".toList) ∧
+    (match colorize LT (Cfg.make 4 2 true)
+        (.binary .mult (.binary .add (.constInt 111) (.constInt 222)) (.constInt 333)) with
+      | .ok r => (r.isComplete, r.items.flatMap Item.raw)
+      | .error _ => (false, [])) = (true, "(111+↵\n222)*3↵\n33".toList) := by
+  constructor <;> decide +kernel
+
 /-- the text of a result as the reader sees it, markers included -/
 def visible (items : List Item) : List Char := items.flatMap Item.raw
 
